@@ -4,7 +4,7 @@ ENGINES = [
 ]
 NOTES = "All checks: ./run.sh <id> quick|thorough rebuilds the harness against /repo's working tree (replace directive) and rewrites evidence/<id>.json. known_findings.json is read-only at run time."
 NOT_YET = {}
-ENGINES.append({"name": "E2-regen", "path": "/verif/internal/regen, /verif/drivers", "serves_properties": ["C05", "C14", "C20"],
+ENGINES.append({"name": "E2-regen", "path": "/verif/internal/regen, /verif/drivers", "serves_properties": ["C03", "C05", "C14", "C20"],
      "kind_free_text": "regenerate-compile-drive pipeline: specs are generated in process by the generator of the tree under check into a scratch module, compiled with a driver and every case of the bounded space is executed on the regenerated code"})
 CHECKS["C12"] = dict(
     category="exploration", engine="E1-enum",
@@ -63,4 +63,11 @@ CHECKS["C20"] = dict(
     technique="complete enumeration of failure stage x target-directory state x flags on the built cmd/ogen binary with before/after snapshots",
     text="Every pre-write failure stage (16: unknown flag, missing argument, config missing/invalid/unknown field/unknown feature, spec missing/directory, malformed YAML/JSON, spec validation x2, dangling $ref, not-implemented, IR build error, route conflict) and two successful runs are crossed with 18 (quick) / 33 (thorough) target states (absent, empty, every subset of {previous generation with stale files, look-alike user files, generated-looking sub-directories, symlink, read-only generated file}), --clean on/off and relative/absolute target: 1296 / 2376 executions of the binary built from the working tree. Failure => exit != 0 and the recursive snapshot of the target (and of the working directory) is unchanged; success => only top-level files matching the generator's pattern are created/overwritten/removed, removal only with --clean.",
     note="Fixtures are self-validating (each must fail at its intended stage, checked by error text on every run). Runs as root: permission-denied paths are not reachable in this sandbox. Failures after writing has begun (formatter errors) are outside the property.",
+)
+
+CHECKS["C03"] = dict(
+    category="exploration", engine="E2-regen",
+    technique="bounded-exhaustive enumeration of a schema grammar x a universal instance pool on a regenerated server against a reference validator (cross-checked with python jsonschema)",
+    text="328 (quick) / ~850 (thorough, depth 3) schemas from the supported keyword fragment are regenerated as JSON-body operations (every leaf schema also as query, path and header parameter) of one server; the full product with a ~190-instance pool (values around every bound, length and pattern used, arrays 0-3 with duplicates, objects over the member names used, recursion, discriminator documents) is posted: 5.7e4 / 1.7e5 requests. Reference verdict valid <=> the request reaches the handler (501 + middleware ran); invalid => 4xx and no handler. The reference validator's verdicts are cross-checked on every unambiguous body pair with python jsonschema Draft4 (+ nullable rewrite).",
+    note="Trusted: drivers/refval (exact rationals). Outside the oracle and counted: 1.0 for integer, numbers beyond 2^53, non-dyadic multipleOf, 1 vs 1.0 duplicates, instances carrying members unique to several oneOf variants, discriminator documents on which OpenAPI mapping semantics and plain oneOf differ, integer+number sums, ParseBool spellings of booleans in text parameters. Python disagrees with the reference only on `$` before a trailing newline (Python regex semantics).",
 )
